@@ -18,7 +18,8 @@ JSignBuild(e) ==
       optcls == IF "pairs" \in DOMAIN m THEN BodyClass(SerBody(SortPairs(m.pairs))) ELSE "-"
       cls == e.fn \o "/st=" \o ToString(e.st) \o (IF tst >= 0 THEN "/tst=" \o ToString(tst) ELSE "") \o "/opts=" \o optcls
       built == r.setup /\ r.ok
-      matching == "edsigner" \notin DOMAIN m      \* the signing key is the one the structure announces (C06 speaks of matching keys only)
+      declared == IF "declst" \in DOMAIN m THEN m.declst ELSE e.st        \* the signing type the identity declares
+      matching == "edsigner" \notin DOMAIN m /\ declared = e.st      \* the signing key is the one the structure announces (C06 speaks of matching keys only)
   IN
   << R("C06", "probe_set_up", TRUE, r.setup, cls),
      R("C06", "trailing_signature_is_reference_layout", built /\ r.serok /\ sl.ok /\ matching,
@@ -26,6 +27,9 @@ JSignBuild(e) ==
      R("C06", "library_signed_structure_verifies", built /\ matching, r.verify_ok, cls),
      R("C06", "library_signature_valid_under_matching_key", built /\ r.serok /\ matching, r.indep_ok, cls),
      R("C06", "still_verifies_after_serialise_and_parse", built /\ r.serok /\ matching, r.rt_parse_ok /\ r.rt_verify_ok, cls),
+     \* a signing constructor never hands back a structure around an identity of a prohibited type (Ed25519ph / RSA / ML-KEM for Destinations, those and RedDSA for routers)
+     R("C09", "constructor_never_returns_prohibited", built /\ "declst" \in DOMAIN m,
+       IF e.fn = "NewRouterInfo" THEN ~RouterProhibited(declared, m.ct) ELSE ~DestProhibited(declared, m.ct), cls \o "/decl=" \o ToString(declared)),
      R("C14", "constructor_ok_implies_validate_ok", built /\ r.hasvalid, r.validok, cls),
      R("C14", "valid_value_round_trips", built /\ r.hasvalid /\ r.validok, r.serok /\ r.rt_parse_ok /\ r.rt_same, cls),
      R("C14", "constructor_rejects_documented_defect", r.setup /\ e.fn = "NewEncryptedLeaseSet" /\
